@@ -2,6 +2,7 @@ package stack
 
 import (
 	"encoding/json"
+	"errors"
 	"fmt"
 	"os"
 	"path/filepath"
@@ -177,11 +178,18 @@ func (r *runner) call(op *Op) {
 		s.Srv.Shutdown(&interop.Shutdown{DeadlineNs: metering.Monotime() + int64(op.Ms)*1000*1000})
 		s.Rec.Emit("plat", "ShutdownRet")
 	case "restore":
-		s.Rec.Emit("plat", "RestoreCall", "timeoutMs", op.Ms)
+		s.Rec.Emit("plat", "RestoreCall", "timeoutMs", op.Ms, "label", op.Label)
 		t0 := time.Now()
 		_, err := s.Srv.Restore(&interop.Restore{AwsKey: "RK" + op.Label, AwsSecret: "RS" + op.Label, AwsSession: "RT" + op.Label,
 			CredentialsExpiry: time.Now().Add(time.Hour), RestoreHookTimeoutMs: int64(op.Ms)})
-		s.Rec.Emit("plat", "RestoreRet", "err", errStr(err), "durMs", time.Since(t0).Milliseconds(), "timeoutMs", op.Ms)
+		es := errStr(err)
+		var ue interop.ErrRestoreHookUserError
+		if errors.As(err, &ue) {
+			es = "usererr:" + string(ue.UserError.Type)
+		}
+		s.Rec.Emit("plat", "RestoreRet", "err", es, "durMs", time.Since(t0).Milliseconds(), "timeoutMs", op.Ms)
+	case "creds":
+		s.Creds(p, op.ID)
 	default:
 		s.Rec.Emit("drv", "BadOp", "api", op.API)
 	}
